@@ -9,7 +9,10 @@
 (***************************************************************************)
 EXTENDS Naturals, Sequences, FiniteSets, TLC, Json, SequencesExt
 
-Opts == <<"Oa", "Ob", "GenU8", "GenU64">>     \* GenU8 / GenU64: aliases of one generic trait
+(* GenU8 / GenU64: aliases of one generic trait.  "Oa" / "OB": as identifiers "OB" < "Oa" (every upper-case letter sorts  *)
+(* before every lower-case one), lower-cased "oa" < "ob" - the group and the cast macros must agree on ONE order of the   *)
+(* requested names, or the conversion function the macro names does not exist                                          *)
+Opts == <<"Oa", "OB", "GenU8", "GenU64">>
 Ord(t) == CHOOSE k \in 1..4 : Opts[k] = t
 OptsOf(n) == {Opts[k] : k \in 1..n}
 AsSeq(S) == SetToSortSeq(S, LAMBDA a, b : Ord(a) < Ord(b))
@@ -22,7 +25,7 @@ Cells == UNION {{[n |-> n, enabled |-> AsSeq(s), req |-> AsSeq(r), op |-> o, kin
 (* groups built from the FORWARD view of a value (`x.forward_mut()`, type Fwd<&mut T>): `cglue_impl_group!(T, G, {owned}, *)
 (* {forward})` names the optional traits of the two kinds of object independently.  The verdict for an object built     *)
 (* from the forward view follows the forward list - whatever the owned list says.                                       *)
-FOpts == {"Oa", "Ob"}
+FOpts == {"Oa", "OB"}
 FwdCells == {[n |-> 2, via |-> "fwd", owned |-> AsSeq(so), enabled |-> AsSeq(sf), req |-> AsSeq(r), op |-> o, kind |-> k, ok |-> (r \subseteq sf)] :
                so \in SUBSET FOpts, sf \in SUBSET FOpts, r \in (SUBSET FOpts) \ {{}}, o \in Ops, k \in Kinds}
 
